@@ -245,7 +245,7 @@ def stdio_cases(gw, rng, quick):
     return out
 
 
-def close_cases(gw):
+def close_cases(gw, scratch=None):
     out = []
     # the initiator closes its end first; an explicit close from inside the still running code must nevertheless be refused
     ch = gw.remote_exec("report = channel.receive()\nreport.receive()\ntry:\n    channel.close()\n    report.send('accepted')\nexcept OSError:\n    report.send('refused')\n")
@@ -271,6 +271,43 @@ def close_cases(gw):
     except Exception:  # noqa: BLE001
         pass
     out.append(c)
+    # the same refusal for a function body, also when the close comes through a channel file with proxyclose
+    if scratch:
+        import time
+
+        path = os.path.join(scratch, "closefunc.py")
+        open(path, "w").write(
+            "def plain(channel):\n    try:\n        channel.close()\n        channel.send('closed')\n    except OSError:\n        channel.send('refused')\n"
+            "    channel.receive()\n    channel.send('end')\n\n"
+            "def through_file(channel):\n    f = channel.makefile('w', proxyclose=True)\n    try:\n        f.close()\n        r = 'closed'\n    except OSError:\n        r = 'refused'\n"
+            "    channel.send(r)\n    channel.receive()\n    channel.send('end')\n")
+        mod = load_module(path, "closefunc")
+        for fn in (mod.plain, mod.through_file):
+            c = {"k": "close", "refused": False, "closed_at_end": False, "open_before_end": False}
+            try:
+                ch = gw.remote_exec(fn)
+                c["refused"] = _txt(ch.receive(10)) == "refused"
+                c["open_before_end"] = not ch.isclosed()
+                ch.send(None)
+                last = _txt(ch.receive(10))
+                ch.waitclose(10)
+                c["closed_at_end"] = ch.isclosed() and last == "end"
+            except Exception:  # noqa: BLE001
+                pass
+            out.append(c)
+        # a caller that keeps nothing but a callback (gw.remote_exec(src).setcallback(cb, endmarker=...)): the end of the code - by
+        # returning or by raising - closes the channel, which is what delivers the endmarker
+        for tail in ("", "raise ValueError('the code fails')\n"):
+            got = []
+            gw.remote_exec("import time\ntime.sleep(0.4)\nchannel.send(1)\n" + tail).setcallback(got.append, endmarker="END")
+            time.sleep(0.1)
+            c = {"k": "close", "refused": True, "closed_at_end": False, "open_before_end": "END" not in got}
+            for _ in range(1000):
+                if "END" in got:
+                    break
+                time.sleep(0.01)
+            c["closed_at_end"] = [_txt(x) if isinstance(x, (str, bytes)) else x for x in got] == [1, "END"]
+            out.append(c)
     return out
 
 
@@ -342,7 +379,7 @@ def run(ctx):
             for i, sh in enumerate(shapes):
                 cases.append(shape_case(gw, sh, f"{kind}{em}{i}", ctx.scratch))
             cases += trace_cases(gw, ctx.scratch)
-            cases += close_cases(gw)
+            cases += close_cases(gw, ctx.scratch)
             cases += repeat_cases(gw, ctx.scratch)
             cases += literal_cases(gw, ctx.scratch)
             cases += stdio_cases(gw, rng, ctx.quick)
@@ -354,7 +391,7 @@ def run(ctx):
         gw = group.makegateway("popen")
         gw.reconfigure(py2str_as_py3str=False, py3str_as_py2str=True)
         cases += repeat_cases(gw, ctx.scratch)
-        cases += close_cases(gw)
+        cases += close_cases(gw, ctx.scratch)
         cases += trace_cases(gw, ctx.scratch)
     finally:
         group.terminate(timeout=3)
